@@ -158,22 +158,23 @@ def walk(root, first_use=False):
 
 
 def compare(before, tables_before, after, before_alt=None):
-    res = _compare(before, tables_before, after)
-    if res and before_alt is not None:
-        # the reading with forward-used named references read at their first use
+    if before_alt is not None:
+        # two readings of a forward-used named reference: judge against the one whose word order the cleaned tree
+        # follows for longer
+        r1 = _compare(before, tables_before, after)
+        if r1 is None:
+            return None
         r2 = _compare(before_alt[0], before_alt[1], after)
         if r2 is None:
             return None
-        # both readings disagree with the cleaned tree: report against the one that agrees longer
-        if _agree(before_alt[0], after) > _agree(before, after):
-            return r2
-    return res
+        return r2 if _agree(before_alt[0], after) > _agree(before, after) else r1
+    return _compare(before, tables_before, after)
 
 
 def _agree(before, after):
     n = 0
     for b, a in zip(before, after):
-        if b[:4] != a[:4]:
+        if b[0] != a[0]:
             break
         n += 1
     return n
